@@ -689,6 +689,10 @@ def main(argv):
     except protocol.DriverError as e:
         log('INFRASTRUCTURE ERROR (driver): %s' % e)
         return 2
+    except Exception:
+        import traceback
+        log('INFRASTRUCTURE ERROR (harness): ' + traceback.format_exc())
+        return 2
 
 
 if __name__ == '__main__':
